@@ -1,6 +1,6 @@
 (** Prop_C12.v -- C12: expiry never removes a channel that is active or has a subscriber. *)
 From MW Require Import Base Store Monad Usage Server Websocket Service Inv Obs
-     StepFacts SweepFacts Corollaries Inst_Params Inst_Timer.
+     StepFacts SweepFacts Corollaries Inst_Params Inst_Timer ActivityFacts.
 From MWGen Require GenParams.
 Local Open Scope list_scope.
 
@@ -62,5 +62,57 @@ Proof. exact sweep_fault. Qed.
 Print Assumptions C12_faulty_sweep_harmless.
 
 (** the repository's constants: expiration 11 min > period 5 min > 0 *)
+(** ** activity is what the stamp records (ActivityFacts.v)
+
+    A served claim, allocate, open or add concerning a mailbox leaves its row stamped with
+    the arrival time; a stamp never decreases over any event (restarts and crashes included);
+    so a mailbox that saw such activity at time t survives -- with its messages, side
+    records and nameplate -- every sweep that fires before t + exp, whatever history lies in
+    between; and a subscribed mailbox survives every sweep and is re-stamped by it. *)
+Theorem C12_activity_stamps : ltac:(let t := type of activity_stamps in exact t).
+Proof. exact activity_stamps. Qed.
+Check C12_activity_stamps.
+Print Assumptions C12_activity_stamps.
+
+Theorem C12_updated_monotone : ltac:(let t := type of updated_monotone_run in exact t).
+Proof. exact updated_monotone_run. Qed.
+Check C12_updated_monotone.
+Print Assumptions C12_updated_monotone.
+
+Theorem C12_recently_active_survives : ltac:(let t := type of recently_active_survives in exact t).
+Proof. exact recently_active_survives. Qed.
+Check C12_recently_active_survives.
+Print Assumptions C12_recently_active_survives.
+
+Theorem C12_active_within_exp_survives_reachable : ltac:(let t := type of C12_active_within_exp_survives in exact t).
+Proof. exact C12_active_within_exp_survives. Qed.
+Check C12_active_within_exp_survives_reachable.
+Print Assumptions C12_active_within_exp_survives_reachable.
+
+Theorem C12_subscriber_survives : ltac:(let t := type of subscriber_survives in exact t).
+Proof. exact subscriber_survives. Qed.
+Check C12_subscriber_survives.
+Print Assumptions C12_subscriber_survives.
+
+(** "a client may be away for at least the expiration time minus one sweep period": a
+    mailbox stamped at t is spared by every sweep up to t + (exp - period) (indeed up to
+    t + exp); and a client that WAS subscribed (its mailbox is re-stamped by every sweep
+    while it stays, so the stamp is at most one period old when it leaves) may be away for
+    exp - period from the moment it leaves -- provided the sweeps before did not fail
+    ([timer_fault_free]; [stale_after_faulty_sweeps] is the counterexample otherwise) *)
+Theorem C12_away_time : ltac:(let t := type of away_time in exact t).
+Proof. exact away_time. Qed.
+Check C12_away_time.
+Print Assumptions C12_away_time.
+
+Theorem C12_away_time_subscribed : ltac:(let t := type of away_time_subscribed in exact t).
+Proof. exact away_time_subscribed. Qed.
+Check C12_away_time_subscribed.
+Print Assumptions C12_away_time_subscribed.
+
+Example C12_stale_after_faulty_sweeps : ltac:(let t := type of stale_after_faulty_sweeps in exact t).
+Proof. exact stale_after_faulty_sweeps. Qed.
+
+
 Example C12_constants_ok : params_ok GenParams.gen_exp GenParams.gen_period = true.
 Proof. exact gen_params_ok. Qed.
